@@ -109,6 +109,12 @@ class CallMixin:
             return self.apply_contract(c, binding, st, node)
         if qual in self.reg.inline:
             return self.inline(fi, binding, st)
+        # a helper without a contract and without loops (e.g. one introduced by an edit) is executed in place
+        import ast as _ast
+        from .loader import FuncInfo as _FI
+        if not any(isinstance(n, (_ast.While, _ast.For)) for n in _FI._own_nodes(fi.node)) and not fi.is_generator \
+                and self.inline_depth < 3:
+            return self.inline(fi, binding, st)
         raise Unsupported('call of %s which has no contract' % qual)
 
     def call_method_val(self, recv, name, args, kwargs, st, node):
@@ -424,15 +430,14 @@ class CallMixin:
         raise Unsupported('str method ' + name)
 
     def list_method(self, recv, name, args, st, target):
-        def store(newv):
-            if isinstance(target, ast.Attribute) and isinstance(target.value, ast.Name):
-                pass
+        def store(newv, st_=None):
+            s_ = st_ if st_ is not None else st
             tgt = target.value if isinstance(target, ast.Attribute) else None
             if isinstance(tgt, ast.Name):
-                st.env[tgt.id] = newv
+                s_.env[tgt.id] = newv
                 return
             if isinstance(tgt, ast.Attribute):
-                self.assign_target(tgt, newv, st, must_single=True)
+                self.assign_target(tgt, newv, s_, must_single=True)
                 return
             raise Unsupported('mutation of a temporary list')
         if recv.ty == 'seq':
@@ -455,6 +460,10 @@ class CallMixin:
                         z = Concat(z, Unit(elem_z(x, el)))
                     store(VSeq(z, el))
                     return [('val', st, VNone)]
+        if recv.ty == 'seq' and name in ('insert', 'index', 'remove', 'pop', 'reverse', 'clear'):
+            r = self.seq_method(recv, name, args, st, store)
+            if r is not None:
+                return r
         if recv.ty == 'hlist' and name == 'append':
             t = recv.a['tail']
             xz = elem_z(args[0], recv.a['elem'])
@@ -481,6 +490,89 @@ class CallMixin:
             if r is not None:
                 return r
         raise Unsupported('list method %s on %s' % (name, recv.ty))
+
+    def seq_method(self, recv, name, args, st, store):
+        """list.insert / index / remove / pop / reverse / clear on a symbolic sequence (python semantics;
+        `==` on expressions is textual, as TexExpr.__eq__ is)"""
+        from .spec import QBool
+        from .sorts import norm_index, E as ESort
+        el = recv.a['elem']
+        S = recv.z
+        n = Length(S)
+
+        def same(a, b):
+            if el == 'E':
+                return ops.ser(a) == ops.ser(b)
+            return a == b
+        if name == 'clear':
+            store(VSeq(Empty(S.sort()), el))
+            return [('val', st, VNone)]
+        if name == 'insert':
+            i, x = args[0], elem_z(args[1], el)
+            ii = norm_index(i.z, n)
+            new = Concat(SubSeq(S, 0, ii), Unit(x), SubSeq(S, ii, n - ii))
+            st.fact(Length(new) == n + 1)
+            store(VSeq(new, el))
+            for h in self.reg.attr_hooks:
+                h(self, 'inserted', (S, ii, x, new, el), st)
+            return [('val', st, VNone)]
+        if name in ('index', 'remove'):
+            x = elem_z(args[0], el)
+            r = fresh('idx', IntSort())
+            found = st.fork()
+            found.assume(And(0 <= r, r < n, same(S[r], x)))
+            self.assume_clause(found, [QBool(BoolVal(True), IntVal(0), r, lambda j: Not(same(S[j], x)))])
+            self.touch(found, r)
+            missing = st
+            self.assume_clause(missing, [QBool(BoolVal(True), IntVal(0), n, lambda j: Not(same(S[j], x)))])
+            outs = []
+            from .smt import quick_sat
+            if quick_sat(missing.hyps(), self.feas_ms):
+                outs.append(('raise', missing, 'ValueError'))
+            if quick_sat(found.hyps(), self.feas_ms):
+                if name == 'index':
+                    outs.append(('val', found, VI(r)))
+                else:
+                    new = Concat(SubSeq(S, 0, r), SubSeq(S, r + 1, n - r - 1))
+                    found.fact(Length(new) == n - 1)
+                    found.ghost['$removed_at'] = VI(r)
+                    # store through the forked state
+                    saved = store.__closure__
+                    outs.append(('store', found, VSeq(new, el)))
+            return self._finish_store(outs, store, st)
+        if name == 'pop':
+            i = args[0] if args else VI(-1)
+            g = []
+            ops.guard(g, And(i.z >= -n, i.z < n), 'IndexError')
+            ii = If(i.z < 0, i.z + n, i.z)
+            outs = []
+            for o in self.finish(st, g, elem_val(S[ii], el)):
+                if o[0] == 'val':
+                    new = Concat(SubSeq(S, 0, ii), SubSeq(S, ii + 1, n - ii - 1))
+                    o[1].fact(Length(new) == n - 1)
+                    outs.append(('store', o[1], VSeq(new, el), o[2]))
+                else:
+                    outs.append(o)
+            return self._finish_store(outs, store, st)
+        if name == 'reverse':
+            new = fresh('reversed', S.sort())
+            st.fact(Length(new) == n)
+            self.assume_clause(st, [QBool(BoolVal(True), IntVal(0), n, lambda j: new[j] == S[n - 1 - j])])
+            store(VSeq(new, el))
+            return [('val', st, VNone)]
+        return None
+
+    def _finish_store(self, outs, store, st0):
+        """perform the deferred list stores of forked outcomes (the store closure writes into the state it is given)"""
+        res = []
+        for o in outs:
+            if o[0] != 'store':
+                res.append(o)
+                continue
+            s1, newv = o[1], o[2]
+            store(newv, s1)
+            res.append(('val', s1, o[3] if len(o) > 3 else VNone))
+        return res
 
     def const_method(self, recv, name, args, st):
         py = recv.a['py']
